@@ -677,3 +677,96 @@ Example ex_blocks_from_fresh_lasti :
   let c := mkC [(16, 30, 2); (44, 60, 1)] 8 10 40 true true true [50; 70] false in
   snd (inspect c (env_of [(0, P6, Goto ex_s1)]) no_garbage (mkW ex_s2 OnThread)) = (10, []).
 Proof. reflexivity. Qed.
+
+(* ====================================================================== searching other threads *)
+From Coq Require Import Permutation.
+
+Definition hit (me outer : nat) (p : nat * tstack) : Prop := fst p <> me /\ try_from outer (snd p) <> [].
+(* frames are exclusive to one stack, so any two other threads on whose stack `outer` is found
+   yield the same frames (in reality there is at most one) *)
+Definition hits_agree (me outer : nat) (ths : list (nat * tstack)) : Prop :=
+  forall p q, In p ths -> In q ths -> hit me outer p -> hit me outer q ->
+              try_from outer (snd p) = try_from outer (snd q).
+
+Lemma search_cases me outer ths :
+  (search_others me outer ths = [] /\ forall p, In p ths -> ~ hit me outer p) \/
+  (exists p, In p ths /\ hit me outer p /\ search_others me outer ths = try_from outer (snd p)).
+Proof.
+  induction ths as [|[i st] r IH]; simpl.
+  - left. split; auto.
+  - destruct (i =? me) eqn:E.
+    + apply Nat.eqb_eq in E. destruct IH as [[H1 H2]|(p & Hp & Hh & Hs)].
+      * left. split; auto. intros p [<-|Hp]; [|auto]. intros [Hne _]. simpl in Hne. congruence.
+      * right. exists p. auto.
+    + apply Nat.eqb_neq in E. destruct (try_from outer st) as [|f fs] eqn:Et.
+      * destruct IH as [[H1 H2]|(p & Hp & Hh & Hs)].
+        -- left. split; auto. intros p [<-|Hp]; [|auto]. intros [_ Hne]. simpl in Hne. congruence.
+        -- right. exists p. auto.
+      * right. exists (i, st). split; [left; auto|]. split; [|simpl; auto].
+        split; simpl; auto. rewrite Et. discriminate.
+Qed.
+
+(* the result of the search depends neither on the order in which sys._current_frames() lists the
+   threads nor, in particular, on where the caller's own entry sits in it *)
+Lemma search_order_independent me outer ths ths' :
+  Permutation ths ths' -> hits_agree me outer ths ->
+  search_others me outer ths = search_others me outer ths'.
+Proof.
+  intros HP Ha.
+  destruct (search_cases me outer ths) as [[H1 H2]|(p & Hp & Hh & Hs)];
+  destruct (search_cases me outer ths') as [[H1' H2']|(q & Hq & Hh' & Hs')].
+  - congruence.
+  - exfalso. apply (H2 q); auto. eapply Permutation_in; [apply Permutation_sym; exact HP|exact Hq].
+  - exfalso. apply (H2' p); auto. eapply Permutation_in; eauto.
+  - rewrite Hs, Hs'. apply Ha; auto. eapply Permutation_in; [apply Permutation_sym; exact HP|exact Hq].
+Qed.
+
+Lemma search_skips_caller me outer s a : forall b,
+  search_others me outer (a ++ (me, s) :: b) = search_others me outer (a ++ b).
+Proof.
+  induction a as [|[i st] a IH]; intros b; simpl.
+  - rewrite Nat.eqb_refl. reflexivity.
+  - rewrite IH. reflexivity.
+Qed.
+
+Lemma try_from_acc_split outer inner rest : ~ In outer inner -> forall acc,
+  try_from_acc outer (inner ++ outer :: rest) acc = outer :: rev inner ++ acc.
+Proof.
+  induction inner as [|f inner IH]; intros Hn acc; simpl.
+  - rewrite Nat.eqb_refl. reflexivity.
+  - destruct (f =? outer) eqn:E.
+    + apply Nat.eqb_eq in E. exfalso. apply Hn. left; auto.
+    + rewrite IH by (intros H; apply Hn; right; auto). rewrite <- app_assoc. reflexivity.
+Qed.
+
+(* exactness: if `outer` is not on the caller's own stack and some OTHER thread has it on its stack,
+   with the frames `inner` inside it, the result is exactly outer followed by those frames, outermost
+   first, without error -- wherever that thread and the caller are listed *)
+Lemma search_exact me outer own ths i inner rest :
+  try_from outer own = [] -> hits_agree me outer ths ->
+  In (i, inner ++ outer :: rest) ths -> i <> me -> ~ In outer inner ->
+  unwrap_outer me outer own ths = (outer :: rev inner, false).
+Proof.
+  intros Hown Ha Hin Hne Hno. unfold unwrap_outer. rewrite Hown.
+  assert (Ht : try_from outer (inner ++ outer :: rest) = outer :: rev inner).
+  { unfold try_from. rewrite try_from_acc_split by auto. rewrite app_nil_r. reflexivity. }
+  destruct (search_cases me outer ths) as [[H1 H2]|(p & Hp & Hh & Hs)].
+  - exfalso. apply (H2 _ Hin). split; simpl; auto. rewrite Ht. discriminate.
+  - rewrite Hs. rewrite (Ha p (i, inner ++ outer :: rest)); auto.
+    + simpl. rewrite Ht. reflexivity.
+    + split; simpl; auto. rewrite Ht. discriminate.
+Qed.
+
+(* hypotheses met by a non-trivial input: caller 2 listed first (newest), the frame 13 runs on the
+   older thread 1; thread 3 and the main thread 0 hold other frames *)
+Definition ex_ths : list (nat * tstack) := [(2, [25; 24]); (3, [31; 30]); (1, [15; 14; 13; 12; 11]); (0, [5; 4])].
+Example ex_search :
+  hits_agree 2 13 ex_ths /\ unwrap_outer 2 13 [25; 24] ex_ths = ([13; 14; 15], false)
+  /\ unwrap_outer 2 13 [25; 24] (rev ex_ths) = ([13; 14; 15], false)
+  /\ unwrap_outer 2 99 [25; 24] ex_ths = ([99], true).
+Proof.
+  split; [|repeat split; reflexivity].
+  intros p q Hp Hq [_ H1] [_ H2]. simpl in Hp, Hq.
+  destruct Hp as [<-|[<-|[<-|[<-|[]]]]]; destruct Hq as [<-|[<-|[<-|[<-|[]]]]]; simpl in *;
+    try reflexivity; try (exfalso; apply H1; reflexivity); try (exfalso; apply H2; reflexivity).
+Qed.
